@@ -49,10 +49,15 @@ type ReadOpt func(*ReadOptions) error
 // use AfterNanos instead.
 func After(start int64) ReadOpt {
 	return func(ro *ReadOptions) error {
-		if ro.End < start {
+		var startNanos uint64
+		if start > 0 {
+			startNanos = uint64(start)
+		}
+		if !ro.endUnbounded && ro.EndNanos < startNanos {
 			return fmt.Errorf("end cannot come before start")
 		}
 		ro.Start = start
+		ro.StartNanos = startNanos
 		return nil
 	}
 }
@@ -63,10 +68,15 @@ func After(start int64) ReadOpt {
 // use BeforeNanos instead.
 func Before(end int64) ReadOpt {
 	return func(ro *ReadOptions) error {
-		if end < ro.Start {
+		var endNanos uint64
+		if end > 0 {
+			endNanos = uint64(end)
+		}
+		if endNanos < ro.StartNanos {
 			return fmt.Errorf("end cannot come before start")
 		}
 		ro.End = end
+		ro.EndNanos = endNanos
 		ro.endUnbounded = false
 		return nil
 	}
